@@ -58,6 +58,7 @@ def run(ctx):
         hw, hk = "{10}", '{"%s"}' % ("ofs" if ctx.seed % 2 else "ref")
     r = ctx.tlc("PackRequest", cfg_text=REQ_CFG % (hw, hk, mod, sel), timeout=1500)
     rows = ctx.printed_json(r)
+    rows.sort(key=lambda x: json.dumps(x, sort_keys=True))   # parallel BFS prints in scheduling order
     if len(rows) != r.distinct or not rows:
         raise vlib.ToolingError("PackRequest: %d rows printed for %d states" % (len(rows), r.distinct))
     scn = ctx.path("c07_scenarios.ndjson")
